@@ -79,6 +79,18 @@ Theorem acknowledged_publish_reaches_subscribers : ∀ seen cl c k s p dup mid c
 Proof. exact publish_step_reaches. Qed.
 Print Assumptions acknowledged_publish_reaches_subscribers.
 
+(** [quiescent] — the premise of the step theorems of C01, C02, C07 and C14 — is what every step
+    re-establishes: the initial state has it, and after the consumers have run at the end of a
+    step every node's offset is at the end of its log, provided the step's own part left no node
+    with more than [drain_fuel] (4000) unconsumed entries (the bound of the model's consumer loop;
+    the harness never comes near it, a step appends at most one entry per will or publish). *)
+Theorem initial_state_has_caught_up : ∀ k, quiescent (cnew k).
+Proof. exact cnew_quiescent. Qed.
+Print Assumptions initial_state_has_caught_up.
+Theorem consumers_catch_up_in_every_step : ∀ seen cl o, backlog_ok (step_raw seen cl o).1 → quiescent (step seen cl o).1.
+Proof. exact step_reestablishes_quiescence. Qed.
+Print Assumptions consumers_catch_up_in_every_step.
+
 (** the very first message a node ever stores is delivered *)
 Example first_message_delivered :
   let run := fold_left (λ st o, let r := step [] st.1 o in (r.1, (st.2 ++ [r.2])%list)) in
